@@ -300,11 +300,7 @@ class ForceMatrix:
                                             params=parameters,
                                             args=arguments)
                 # TODO: replace Matrix by ndarray in this code
-                xres = [solution.params[name].value for name in solution.params]
-
-                # reinsert all the removed spaces
-                for index in removed_indices:
-                    xres = xres.insert(index, -1)
+                xres = np.array([solution.params[name].value for name in solution.params])
             else:
                 try:
                     xres = np.linalg.inv(mprime) @ b
